@@ -403,7 +403,7 @@ func c09kernel(env *core.Env, chain []string, res *core.CaseResult) {
 	defer os.Remove(logf)
 	sc := bufio.NewScanner(f)
 	sc.Buffer(make([]byte, 1<<20), 1<<26)
-	in := false
+	in, invalid := false, false
 	seen := 0
 	for sc.Scan() {
 		m := c04markRe.FindStringSubmatch(sc.Text())
@@ -413,6 +413,13 @@ func c09kernel(env *core.Env, chain []string, res *core.CaseResult) {
 		arg := m[3]
 		if strings.HasPrefix(arg, "/VERIF-MARK-") {
 			in = strings.Contains(arg, "-b-")
+			invalid = strings.Contains(arg, "-i-")
+			continue
+		}
+		if invalid {
+			// a call with an invalid name is running: nothing may reach the kernel at all
+			res.Violate("C09|linux|kernel|syscall-for-invalid-name", fmt.Sprintf("a %s syscall (%q) was issued while an operation with an invalid name was running: invalid names must be refused before any OS call", m[2], arg), map[string]any{"chain": chain, "syscall": sc.Text()})
+			invalid = false
 			continue
 		}
 		if !in || !strings.HasPrefix(arg, "/") {
@@ -458,14 +465,18 @@ func c09straceChild(args []string) int {
 	if err != nil {
 		return 2
 	}
+	var hs fsx.Handles
 	for _, d := range chain {
+		// failing calls on every intermediate file system before the next Sub: nothing learnt from them may leak into the child
+		for _, st := range []fsx.Step{{K: "Stat", P: "missing-on-parent"}, {K: "Rename", P: "missing-on-parent", P2: "x"}, {K: "Mkdir", P: "missing-on-parent/x", Perm: 0o755}} {
+			_ = fsx.Exec(cur, st, &hs, nil)
+		}
 		if cur, err = cur.(*hpos.FS).Sub(d); err != nil {
 			return 2
 		}
 	}
 	fmt.Printf("TID %d\n", syscall.Gettid())
 	mark := func(tag string) { _ = syscall.Access("/VERIF-MARK-"+tag+"-0", 0) }
-	var hs fsx.Handles
 	steps := []fsx.Step{
 		{K: "Mkdir", P: "d", Perm: 0o755}, {K: "WriteFullFile", P: "d/f", Data: "x", Perm: 0o644}, {K: "Stat", P: "missing"}, {K: "Mkdir", P: "d", Perm: 0o755},
 		{K: "Remove", P: "d"}, {K: "Rename", P: "missing", P2: "d/x"}, {K: "Rename", P: "d/f", P2: "nodir/x"}, {K: "ReadDir", P: "d/f"}, {K: "ReadFile", P: "d"},
@@ -483,7 +494,11 @@ func c09straceChild(args []string) int {
 			bad := ""
 			switch r.Typ {
 			case "PathError":
-				if r.EPath == "" || strings.HasPrefix(r.EPath, "/") || strings.Contains(r.EPath, "jail") {
+				related := r.EPath == st.P
+				if st.K == "MkdirAll" || st.K == "RemoveAll" { // may name an ancestor or a descendant of the argument
+					related = related || strings.HasPrefix(st.P, r.EPath+"/") || strings.HasPrefix(r.EPath, st.P+"/")
+				}
+				if r.EPath == "" || strings.HasPrefix(r.EPath, "/") || strings.Contains(r.EPath, "jail") || !related {
 					bad = fmt.Sprintf("%s -> Path=%q", st, r.EPath)
 				}
 			case "LinkError":
@@ -495,6 +510,21 @@ func c09straceChild(args []string) int {
 			}
 			if bad != "" {
 				fmt.Println("BADERR " + bad)
+			}
+		}
+	}
+	// invalid names, alone and as either name of a two-name operation: refused as ErrInvalid, naming the arguments, before any OS call
+	for _, bad := range []string{"", "../b", "b/", "/b", "x/../b", "./b", "d//f", "..", "d/.."} {
+		for _, st := range []fsx.Step{{K: "Stat", P: bad}, {K: "OpenClose", P: bad, Flag: os.O_RDWR | os.O_CREATE, Perm: 0o644}, {K: "Mkdir", P: bad, Perm: 0o755}, {K: "MkdirAll", P: bad, Perm: 0o755}, {K: "Remove", P: bad}, {K: "RemoveAll", P: bad},
+			{K: "Chmod", P: bad, Perm: 0o600}, {K: "Chtimes", P: bad, MTime: 5}, {K: "ReadDir", P: bad}, {K: "Lstat", P: bad},
+			{K: "Rename", P: bad, P2: "d/f"}, {K: "Rename", P: "d/f", P2: bad}, {K: "Rename", P: "..a", P2: bad}, {K: "Symlink", P: "d/f", P2: bad}} {
+			mark("i")
+			r := fsx.Exec(cur, st, &hs, nil)
+			mark("e")
+			n++
+			two := st.K == "Rename" || st.K == "Symlink"
+			if r.Err != "ErrInvalid" || (!two && r.EPath != st.P) || (two && (r.EOld != st.P || r.ENew != st.P2)) {
+				fmt.Printf("BADERR %s (invalid name) -> %s Path=%q Old=%q New=%q\n", st, r, r.EPath, r.EOld, r.ENew)
 			}
 		}
 	}
